@@ -35,6 +35,8 @@ Require Import Ctpg.Model.Containers.
 Require Import Ctpg.Proofs.ContainersVec.
 Require Import Ctpg.Proofs.ContainersBits.
 Require Import Ctpg.Proofs.ContainersSort.
+Require Import Ctpg.Model.Buffers.
+Require Import Ctpg.Proofs.BuffersCorrect.
 From Coq Require Import Permutation.
 
 (* every unchecked array/stack access of the driver (table row and column, rule_infos, erase/back/pop on the stacks, the goto after a reduction, the lexeme extent) is in range: the run never ends in Crash, for any input, options, stack capacity, functors, also through error recovery *)
@@ -240,3 +242,27 @@ Theorem C06_sort_of_an_empty_container_is_undefined :
   forall (A : Type) (p : A -> A -> bool), stdex_sort p [] = Undef.
 Proof. exact @stdex_sort_empty_undefined. Qed.
 Print Assumptions C06_sort_of_an_empty_container_is_undefined.
+
+(* BUFFERS: dereferencing end() of a string_view_buffer is a read outside the caller's buffer (the byte behind the view belongs to somebody else) ... *)
+Theorem C06_the_end_of_a_view_is_outside :
+  forall b : string_view_buffer, svb_deref b (svb_end b) = Undef.
+Proof. exact @svb_deref_end_outside. Qed.
+Print Assumptions C06_the_end_of_a_view_is_outside.
+
+(* ... while end() of a cstring_buffer is its own terminator - which is why an end-of-buffer test that comes too late only shows with views (seeded change C06-8) *)
+Theorem C06_the_end_of_a_cstring_buffer_is_its_terminator :
+  forall text : list nat, cs_deref (cs_of_literal text) (cs_end (cs_of_literal text)) = Ok 0.
+Proof. exact @cs_deref_end. Qed.
+Print Assumptions C06_the_end_of_a_cstring_buffer_is_its_terminator.
+
+(* every lexeme requested inside [begin, end] lies inside the view *)
+Theorem C06_lexemes_inside_the_text :
+  forall (b : string_view_buffer) (s e : nat), svb_wf b -> s <= e -> e <= sv_len b -> svb_get_view b (svb_begin b + s) (svb_begin b + e) = Ok (slice (svb_text b) s e).
+Proof. exact @svb_view_spec. Qed.
+Print Assumptions C06_lexemes_inside_the_text.
+
+(* and a request reaching behind end() is outside *)
+Theorem C06_lexeme_requests_outside_are_outside :
+  forall (b : string_view_buffer) (s e : nat), sv_off b + sv_len b < e -> svb_get_view b s e = Undef.
+Proof. exact @svb_view_overlong. Qed.
+Print Assumptions C06_lexeme_requests_outside_are_outside.
